@@ -88,6 +88,45 @@ Example C18_coded_order_same_schedules :
                                   SIdsBegin; SClaim 0; SReplay 0; SFinalize 0; SIdsEnd])) PROk = PRIds [].
 Proof. split; reflexivity. Qed.
 
+(* the tx-free GetPart (tx = nil: getPartTxFree opens its own read transaction; lazy chunk reader with
+   fallback to the inner store) reflects the latest committed operation exactly like the
+   transactional read, under the same hypothesis [no_steal]:
+   - as ONE snapshot (what SQLite's read transaction gives): SGetFree;
+   - lookup by lookup under statement-level isolation (every lookup sees the latest committed
+     entries; flush steps of any worker between the lookups; no writer commit in between:
+     [quiet_reading]): the lookup that ends the read answers the committed content (deleted =>
+     not found, empty put => empty, put => its bytes) — never a read error, never mixed bytes *)
+Theorem C18_txfree_read_reflects_latest_commit : forall lease UP tr,
+  no_steal lease UP pinit (trace_workers tr) tr = true ->
+  quiet_reading lease UP pinit tr = true ->
+  let s := fst (run_p lease UP pinit tr) in
+  (forall p, snd (step_p lease UP s (SGetFree p)) = PRContent (spec_store (committed tr) p)) /\
+  (forall p, reading s = None ->
+     snd (step_p lease UP s (SRBegin p)) = PROk \/
+     snd (step_p lease UP s (SRBegin p)) = PRContent (spec_store (committed tr) p)) /\
+  (forall r, reading s = Some r ->
+     snd (step_p lease UP s SRStep) = PROk \/
+     snd (step_p lease UP s SRStep) = PRContent (spec_store (committed tr) (rd_pid r))).
+Proof. exact txfree_read_reflects_latest_commit. Qed.
+Print Assumptions C18_txfree_read_reflects_latest_commit.
+
+(* examples: the entry vanishes between the two lookups (re-evaluation finds the part in the inner
+   store) and between two chunks of a two-chunk part (fallback, prefix skipped); a part id that is
+   re-put with other content DURING such a read yields mixed bytes (why [quiet_reading] is assumed;
+   part ids are write-once in pithos) *)
+Example C18_ex_txfree_vanish_between_lookups :
+  snd (run_p 2 [1%N] pinit [SCommit [PPutPart 1 7]; SRBegin 1; SClaim 0; SReplay 0; SFinalize 0; SRStep; SRStep])
+  = [PROk; PROk; PRClaimed 1; PROk; PRDeleted; PROk; PRContent (Some 7%N)].
+Proof. reflexivity. Qed.
+Example C18_ex_txfree_vanish_between_chunks :
+  snd (run_p 2 [1%N] pinit [SCommit [PPutPart 1 901]; SRBegin 1; SRStep; SClaim 0; SReplay 0; SFinalize 0; SRStep])
+  = [PROk; PROk; PROk; PRClaimed 1; PROk; PRDeleted; PRContent (Some 901%N)].
+Proof. reflexivity. Qed.
+Example C18_ex_txfree_reput_during_read_mixes :
+  last (snd (run_p 2 [1%N] pinit [SCommit [PPutPart 1 901]; SRBegin 1; SRStep; SClaim 0; SReplay 0; SFinalize 0;
+                                  SCommit [PPutPart 1 902]; SClaim 0; SReplay 0; SFinalize 0; SRStep])) PROk = PRMixed.
+Proof. reflexivity. Qed.
+
 (* non-vacuity: the witness is a steal; a two-worker trace with crash + expiry that is not *)
 Example C18_ex_witness_steals : no_steal 2 [1%N] pinit (trace_workers c18_witness) c18_witness = false.
 Proof. reflexivity. Qed.
